@@ -84,6 +84,8 @@ Print Assumptions C11_codes.
 From BW Require Import SpecTag SpecBlocks Merge Context.
 From BWP Require Import Run_proofs Merge_proofs Compose_proofs.
 From Coq Require Import Permutation.
+From BW Require Import Main.
+From BWP Require Import Main_proofs MainCompose_proofs.
 (* The printed per-file report is a permutation of all validators' diagnostics with one entry per file ... *)
 Theorem C11_report_is_union_of_validators : forall o ctx vs,
   let arrivals := map (fun v => group_by_file (vr_diags (run_validator o ctx v))) vs in
@@ -99,3 +101,29 @@ Theorem C11_report_any_arrival_order : forall o ctx vs arrivals',
   has_error_severity (merge_all arrivals') = has_error (run_validators o ctx vs).
 Proof. exact report_any_order. Qed.
 Print Assumptions C11_report_any_arrival_order.
+
+(* Through the model of main.rs: the process ends with status 0, 1, 2 (usage error) or 101 (panic), nothing else. *)
+Theorem C11_process_exit_range : forall a ms tb cd,
+  In (main_exit (main_model a ms tb cd)) [0; 1; 2; 101].
+Proof. exact main_exit_range. Qed.
+Print Assumptions C11_process_exit_range.
+
+(* Status 0 exactly when the command line is accepted, nothing panicked, no file or rule failed and no diagnostic has severity error. *)
+Theorem C11_process_exit_zero_iff : forall a ms tb cd,
+  main_exit (main_model a ms tb cd) = 0 <->
+  exists p, plan_of a = Ok p /\
+    let c := main_case a p ms tb cd in
+    if ca_list a then cr_panic (model_context c) = false /\ cr_errs (model_context c) = []
+    else vr_panic (model_run c) = false /\ vr_errs (model_run c) = [] /\
+         (forall pd, In pd (vr_diags (model_run c)) -> d_sev (snd pd) <> 1).
+Proof. exact main_exit_zero_iff. Qed.
+Print Assumptions C11_process_exit_zero_iff.
+
+(* Status 101 exactly when the context assembly or a validator panics. *)
+Theorem C11_process_exit_101_iff_panic : forall a ms tb cd,
+  main_exit (main_model a ms tb cd) = 101 <->
+  exists p, plan_of a = Ok p /\
+    if ca_list a then cr_panic (model_context (main_case a p ms tb cd)) = true
+    else vr_panic (model_run (main_case a p ms tb cd)) = true.
+Proof. exact main_exit_101_iff_panic. Qed.
+Print Assumptions C11_process_exit_101_iff_panic.
